@@ -160,6 +160,8 @@ def gen_cases(rng, n):
 
 
 def main():
+    import astlib
+    astlib.AUTO_FUNCS = 0.2       # sqrt exp ln log pow at exact points in a fifth of the generated formulas
     rep = core.Report("C09")
     quick = core.tier() == "quick"
     # model: a modular specification *means* its inlined formula; the operational content is that an operator
